@@ -7,7 +7,7 @@ from pyvc.sym import Sym
 
 META = {
     "explanation": "under the unit abstraction 5.1 with generic units of symbolic scale: to_unitless returns magnitude times the exact unit ratio (so multiplying back reproduces the quantity, conversions compose, scaling is linear), element-wise for lists and dicts, and raises for an incompatible target; magnitude/unit_of/rescale/is_unitless; get_derived_unit equals the product of registry units to the SI exponents of an independent table for every key, for every registry; the unit-aware array helpers have the delegation shape numpy_f(magnitudes in one common unit) * unit (polyfit coefficient i carries u_y*u_x^(i-deg)); the Backend wrapper sends every positional argument through to_unitless; chemistry-specific unit definitions and the abstraction itself are checked against the real quantities package (data obligations)",
-    "trusted_base": ["assumed contract 5.1 (pyvc/qmodel.py) for `quantities`", "numpy array routines are uninterpreted (delegation shape only, 5.2)", "SI exponent table typed into this file"],
+    "trusted_base": ["assumed contract 5.1 (pyvc/qmodel.py) for `quantities`, validated on every run against the installed package by abstraction_validation (fixed behaviours) and abstraction_differential (1400 seeded random expressions: value, dimension, truth value, refusal)", "numpy array routines are uninterpreted (delegation shape only, 5.2)", "SI exponent table typed into this file"],
     "not_decided": ["correctness of the quantities package itself", "get_physical_dimensionality / default_unit_in_registry / unitless_in_registry / registry human-readable round trip (walk quantities internals): bounded stand-in"],
     "assumptions": [],
 }
@@ -259,3 +259,91 @@ def _(v):
     except ValueError:
         ok = True
     v.prove("rescale_refuses_dimension_mismatch", ok)
+
+
+@harness("C09", "abstraction_differential", functions=["pyvc.qmodel (assumed contract 5.1) against the installed quantities package"], kind="data")
+def _(v):
+    """differential validation of the assumed contract 5.1: seeded random expressions over the units the abstraction knows are evaluated with the
+    abstraction (exact rationals) and with the real package; value, dimension, truth value and refusal (ValueError) must agree"""
+    import random
+    from fractions import Fraction as Fr
+    import quantities as pq
+    from chempy.units import default_units as u
+    from pyvc.qmodel import Units, ALIASES, Quantity as MQ, std_table
+    t = std_table()
+    mu = Units(t)
+    names = sorted(n for n in ALIASES if hasattr(u, n) and n not in ("C",))      # 'C' would be coulomb here and Celsius-like elsewhere
+    v.prove("enough_common_units", len(names) >= 30, detail=str(len(names)))
+    bad_scale = []
+    for n in names:
+        real = getattr(u, n)
+        model = getattr(mu, n)
+        rs = real.simplified
+        if abs(float(rs.magnitude) / float(model.si()) - 1) > 1e-12:
+            bad_scale.append((n, float(rs.magnitude), float(model.si())))
+    v.prove("every_common_unit_has_the_same_SI_value", not bad_scale, detail=str(bad_scale[:5]))
+    rng = random.Random(20260927)
+
+    def leaf():
+        n = rng.choice(names)
+        m = Fr(rng.randint(-40, 40), rng.choice([1, 2, 4, 5, 8]))
+        if rng.random() < 0.15:
+            return m, float(m)                                        # a bare number
+        return m * getattr(mu, n), float(m) * getattr(u, n)
+
+    def same_value(a, b):
+        if isinstance(a, MQ) != isinstance(b, pq.Quantity):
+            return False
+        if isinstance(a, MQ):
+            if abs(float(a.mag) - float(b.magnitude)) > 1e-9 * max(1.0, abs(float(b.magnitude))):
+                return False
+            sb = b.simplified
+            sa = float(a.si())
+            if abs(sa - float(sb.magnitude)) > 1e-9 * max(1e-300, abs(float(sb.magnitude))):
+                return False
+            dv = a.dimv()
+            want = tuple(sb.dimensionality.get(k, 0) for k in (pq.m, pq.kg, pq.s, pq.A, pq.K, pq.cd, pq.mol))
+            return tuple(dv) == tuple(want)
+        return abs(float(a) - float(b)) <= 1e-9 * max(1.0, abs(float(b)))
+
+    ops = ["mul", "div", "pow", "add", "sub", "lt", "eq", "ne", "rescale", "float", "neg", "abs", "simplified", "eq_bare", "gt_bare"]
+    mismatches, count, raised = [], 0, 0
+    for case in range(1500):
+        (a, ra), (b, rb) = leaf(), leaf()
+        op = rng.choice(ops)
+        k = rng.choice([-2, -1, 2, 3])
+        bare = rng.choice([float(rng.randint(-3, 3)), 1.0])
+        funs = {
+            "mul": lambda x, y: x * y, "div": lambda x, y: x / y if y != 0 else None, "pow": lambda x, y: x ** k, "add": lambda x, y: x + y, "sub": lambda x, y: x - y,
+            "lt": lambda x, y: bool(x < y), "eq": lambda x, y: bool(x == y), "ne": lambda x, y: bool(x != y), "rescale": lambda x, y: x.rescale(y.units),
+            "float": lambda x, y: float(x), "neg": lambda x, y: -x, "abs": lambda x, y: abs(x), "simplified": lambda x, y: x.simplified,
+            "eq_bare": lambda x, y: bool(x == bare), "gt_bare": lambda x, y: bool(x > bare),
+        }
+        if op in ("rescale", "simplified") and not (isinstance(a, MQ) and isinstance(b, MQ)):
+            continue
+        if op in ("div", "pow") and ((op == "div" and float(rb if not isinstance(rb, pq.Quantity) else rb.magnitude) == 0) or (op == "pow" and float(ra if not isinstance(ra, pq.Quantity) else ra.magnitude) == 0)):
+            continue
+        if op == "float" and isinstance(a, MQ):
+            got_m = ("ok", float(a.raw_float()))
+        else:
+            try:
+                got_m = ("ok", funs[op](a, b))
+            except ValueError:
+                got_m = ("ValueError", None)
+        try:
+            got_r = ("ok", funs[op](ra, rb))
+        except ValueError:
+            got_r = ("ValueError", None)
+        count += 1
+        if got_m[0] != got_r[0]:
+            mismatches.append((case, op, repr(a), repr(ra), repr(b), repr(rb), got_m[0], got_r[0]))
+            continue
+        if got_m[0] == "ValueError":
+            raised += 1
+            continue
+        x, y = got_m[1], got_r[1]
+        ok = (x == y) if isinstance(x, bool) or isinstance(y, bool) else same_value(x, y)
+        if not ok:
+            mismatches.append((case, op, repr(a), repr(ra), repr(b), repr(rb), repr(x), repr(y)))
+    v.prove("abstraction_agrees_with_the_real_package", not mismatches, detail="%d of %d: %s" % (len(mismatches), count, mismatches[:4]))
+    v.prove("refusals_were_exercised", raised >= 50 and count >= 1000, detail="%d refusals in %d cases" % (raised, count))
